@@ -127,7 +127,13 @@ def w1(prog, ctx):
             if p.exit != "return" or not isinstance(p.exit_node, ast.Return) or p.exit_node.value is None:
                 ctx.fail("W1", p.exit_node or f, f._qualname, "path without a weight", "a path returns no weight", path=p.describe())
                 continue
-            w = norm_weight(p.exit_node.value, kname)
+            # the returned expression with the path's plain locals replaced by what they stand for (a weight routed through a
+            # helper's result variable or a memo is still that weight)
+            env_ = {}
+            for ev_ in p.events:
+                if ev_[0] == "stmt" and isinstance(ev_[1], ast.Assign) and len(ev_[1].targets) == 1 and isinstance(ev_[1].targets[0], ast.Name):
+                    env_[ev_[1].targets[0].id] = symexec.subst(ev_[1].value, env_)
+            w = norm_weight(symexec.subst(p.exit_node.value, env_), kname)
             fq = f._qualname
             if w is None:
                 ctx.fail("W1", p.exit_node, fq, src(p.exit_node), "weight %s is none of 0, 1, 1/%s" % (src(p.exit_node.value), kname),
